@@ -3936,7 +3936,10 @@ class mulgrid(object):
                     nn = col.num_nodes
                     for i, corner in enumerate(col.node):
                         next_corner = col.node[(i + 1) % nn]
-                        if (corner in bdy) and (next_corner in bdy):
+                        # (an interior edge between two boundary nodes already
+                        # has its midside node, from its connection)
+                        if (corner in bdy) and (next_corner in bdy) and \
+                           frozenset((corner.name, next_corner.name)) not in sidenodes:
                             sidenodes, nodenumber = create_mid_node(corner, next_corner,
                                                                     sidenodes, nodenumber)
             def transition_type(nn, sides):
